@@ -202,7 +202,11 @@ class C05(Check):
                 sg = gen_online_signal(rng, bad, kind != 'sqrt')
                 if kind == 'sqrt':
                     sg = [[t, rng.choice([0, 1, 4, 9, 16, 25, -1, 'inf'])] for t, v in sg]
-                cases.append({'onlop': kind, 'batches': [x[0] for x in cut_batches(rng, sg, [])], 'n': 0})
+                bs = [x[0] for x in cut_batches(rng, sg, [])]
+                if kind == 'sqrt':
+                    # (the repeated boundary samples get perfect squares too: the model's square root is exact on those only)
+                    bs = [[[t, v if v in (0, 1, 4, 9, 16, 25, -1, 'inf') else 4] for t, v in b] for b in bs]
+                cases.append({'onlop': kind, 'batches': bs, 'n': 0})
         return cases
 
     def load_case(self, c):
